@@ -12,7 +12,7 @@ RULE = ('seeded scenarios with <<EOF>> rules assigned to arbitrary subsets of co
         'survives, the new source starts at beginning of line, no byte of any source is lost; distinct = event-log hash, non-trivial = >= 2 '
         'yywrap consultations or an EOF action')
 TIERS = {
-    'quick': {'scenarios': 48, 'plans': 120, 'wall_cap': 600},
+    'quick': {'scenarios': 80, 'plans': 200, 'wall_cap': 600},
     'thorough': {'scenarios': 5000, 'plans': 300, 'wall_cap': 3300},
 }
 COMPONENTS = sb.COMPONENTS
@@ -26,7 +26,7 @@ class P(sb.StreamProp):
     CLASSES = {'wrap-with-pending', 'wrap-without-eof', 'read-after-eof', 'eof', 'token', 'premature', 'stream', 'bol', 'start', 'fatal', 'hang', 'input', 'phantom'}
 
     def gen_scenario(self, rng):
-        return scenario.gen_scenario(rng, want={'feats': ('eofrules',), 'flavors': ['nr', 'nr', 'r', 'r', 'c99', 'cxx']}, forbid=('vtrail',))
+        return scenario.gen_scenario(rng, want={'feats': ('eofrules',), 'flavors': ['nr', 'nr', 'r', 'r', 'c99', 'c99', 'cxx', 'cxx']}, forbid=('vtrail',))
 
     def gen_plan(self, rng, sc):
         return workload.gen_eof_plan(rng, sc)
